@@ -61,7 +61,7 @@ package cache
 //@   ensures forall h *dns.RR_Header :: wasallocated(h) ==> h.Ttl == old(h.Ttl)
 //@   ensures result_0 != nil ==> fresh(result_0) && (len(result_0.Question) > 0 ==> fresh(result_0.Question.ref))
 //@   ensures result_1 ==> result_0 != nil
-//@   ensures result_0 != nil ==> noOPT(result_0.Extra) && okRRs(result_0.Extra)
+//@   ensures result_0 != nil ==> noOPT(result_0.Extra) && okRRs(result_0.Extra) && wfMsg(result_0)
 //@   ensures calls(cacheGet) == 1 && arg(cacheGet, 0, 0) == backend
 //@   ensures ret(cacheGet, 0, 0) == nil ==> result_0 == nil && !result_1 && calls(msgCopy) == 0
 //@   ensures ret(cacheGet, 0, 0) != nil ==> calls(timeNow) == 1
@@ -128,6 +128,7 @@ package cache
 // the refresh itself: runs the rest of the chain once on the copy, stores the answer under the same
 // key, and releases the single-flight key only when all of that is over (deferred Forget).
 //@ func (c *Cache) doLazyUpdate$1 [C05]
+//@   requires wfK(next.chain, next.p, next.jumpBack) && respWF(qCtxCopy)
 //@   requires c != nil && qCtxCopy != nil && qCtxCopy.query != nil && c.logger != nil && c.backend != nil && c.args != nil && c.args.LazyCacheTTL <= 9223372036
 //@   modifies *
 //@   ensures calls(ExecNext) == 1 && arg(ExecNext, 0, 2) == qCtxCopy && calls(sfForget) == 1 && arg(sfForget, 0, 1) == msgKey && callpos(ExecNext, 0) < callpos(sfForget, 0)
@@ -135,6 +136,7 @@ package cache
 //@   ensures aftercall(ExecNext, 0, qCtxCopy.resp != nil) ==> calls(saveRespToCache) == 1
 
 //@ func (c *Cache) Exec [C03, C04, C05, C10]
+//@   requires wfK(next.chain, next.p, next.jumpBack) && respWF(qCtx)
 //@   requires c != nil && qCtx != nil && qCtx.query != nil && c.backend != nil && c.args != nil && c.queryTotal != nil && c.hitTotal != nil && c.lazyHitTotal != nil && c.args.LazyCacheTTL <= 9223372036
 //@   modifies *
 //@   ensures calls(getMsgKey) == 1 && arg(getMsgKey, 0, 0) == old(qCtx.query) && calls(ExecNext) == 1 && result == ret(ExecNext, 0)
@@ -148,4 +150,5 @@ package cache
 //@   ensures calls(saveRespToCache) == 1 ==> arg(saveRespToCache, 0, 0) == ret(getMsgKey, 0) && arg(saveRespToCache, 0, 2) == c.backend && arg(saveRespToCache, 0, 1) == aftercall(ExecNext, 0, qCtx.resp) && arg(saveRespToCache, 0, 1) != ret(getRespFromCache, 0, 0) && callpos(ExecNext, 0) < callpos(saveRespToCache, 0)
 //@   ensures len(ret(getMsgKey, 0)) > 0 && aftercall(ExecNext, 0, qCtx.resp != nil) && aftercall(ExecNext, 0, qCtx.resp) != ret(getRespFromCache, 0, 0) ==> calls(saveRespToCache) == 1
 //@   ensures[C03] qCtx.query == old(qCtx.query) && qCtx.query.Id == old(qCtx.query.Id) && len(qCtx.query.Question) == old(len(qCtx.query.Question)) && (old(len(qCtx.query.Question)) == 1 ==> qCtx.query.Question[0] == old(qCtx.query.Question[0]))
-//@   ensures[C03] qCtx.resp != nil ==> respOK(qCtx.query, qCtx.resp)
+//@   ensures[C03] old(respX(qCtx)) && (len(ret(getMsgKey, 0)) == 0 || ret(getRespFromCache, 0, 0) == nil) ==> respX(qCtx)
+//@   ensures[C03] respWF(qCtx)
